@@ -336,3 +336,96 @@ def weights_scale(w, x, s):
     if w is not None and len(w):
         return max(1.0, float(np.abs(w).max()))
     return max(1.0, float(np.abs(x).max()) / s) if s > 0 and len(x) else 1.0
+
+
+# ----------------------------------------------------------------------------- bookkeeping shared by C08 / C10
+class Ctx:
+    def __init__(self):
+        self.viol, self.outcomes = [], set()
+        self.execs = self.nontrivial = self.dropped = 0
+        self.margin, self.maxima, self.counters = 0.0, {}, {}
+
+    def count(self, k, v=1):
+        self.counters[k] = self.counters.get(k, 0) + v
+
+    def call(self, cfg, J):
+        self.execs += 1
+        try:
+            return run_agg(cfg, J)
+        except LibraryException as e:
+            self.viol.append(dict(sig=f"exception:{cfg['name']}:{type(e.exc).__name__}",
+                                  msg=f"{cfg_key(cfg)} J={np.asarray(J).tolist()}: {e.exc!r}"[:500]))
+            return None
+
+    def compare(self, oracle, err, tol, sig, msg):
+        r = err / tol if (tol > 0 and math.isfinite(err)) else (0.0 if err == 0 else math.inf)
+        if r > self.maxima.get(oracle, -1.0):
+            self.maxima[oracle] = r
+        self.margin = max(self.margin, r if math.isfinite(r) else 1e300)
+        self.count("comparisons")
+        if not (r <= 1.0):
+            self.viol.append(dict(sig=sig, msg=(msg() if callable(msg) else msg)[:700], cls=sig))
+            return False
+        return True
+
+    def zero_direction(self, clause, err, tol, msg):
+        """ConFIG at a point where pinv(unit rows) @ pref vanishes in exact arithmetic (0/0 direction): kept apart
+        from the normal oracles; a mismatch is the known-finding candidate 'zero-direction:ConFIG:<clause>'."""
+        self.count("zero-direction:ConFIG evaluated")
+        if not (err <= tol):
+            self.count("zero-direction:ConFIG mismatches")
+            sig = f"zero-direction:ConFIG:{clause}"
+            self.viol.append(dict(sig=sig, msg=(msg() if callable(msg) else msg)[:700], cls=sig))
+
+    def result(self):
+        return dict(viol=self.viol, execs=self.execs, outcomes=sorted(self.outcomes), nontrivial=self.nontrivial,
+                    dropped=self.dropped, margin=self.margin, maxima=self.maxima, counters=self.counters)
+
+
+class Pred:
+    """Per-matrix cache of the well-posedness predicates."""
+
+    def __init__(self, J):
+        self.J = J
+        self.s = A.sigma_max(J)
+        self.integer = is_small_integer(J)
+        self._c = {}
+
+    def _get(self, k, fn):
+        if k not in self._c:
+            self._c[k] = fn()
+        return self._c[k]
+
+    def zero_direction(self, cfg):
+        p = cfg.get("p")
+        return self._get(("cfgdir", None if p is None else tuple(p)), lambda: config_direction_ratio(self.J, p)) < 1e-6
+
+    def admissible(self, cfg, exact, row_order=False):
+        """None if the comparison may be asserted with the tight tolerance, 'mgda-tie' for the loose MGDA bound,
+        'zero-direction' for ConFIG's 0/0 points, otherwise 'drop:<predicate>'.
+        ``exact``: the transformation is exact in floating point on this (integer) matrix and leaves every score the
+        library computes bit-identical (column transformations of C08) - tie predicates are then not needed.
+        ``row_order``: the transformation reorders the rows (C10): index-based tie-breaks (Krum's topk, Frank-Wolfe's
+        argmin) then legitimately pick other rows, whatever the arithmetic - tie predicates always apply."""
+        J, name = self.J, cfg["name"]
+        if name in RANK_SENSITIVE:
+            if not self._get("rank", lambda: rank_unambiguous(J)):
+                return "drop:rank"
+            if name == "ConFIG" and not self._get("rank-units", lambda: rank_unambiguous(unit_rows(J))):
+                return "drop:rank"
+        if name == "IMTLG" and not self._get("imtlg", lambda: imtlg_wellposed(J)):
+            return "drop:imtlg-guard"
+        if name == "ConFIG" and self.zero_direction(cfg):
+            return "zero-direction"
+        ties = row_order or not (exact and self.integer)
+        if ties and name == "Krum" and self._get(("krum", cfg["f"], cfg["k"]), lambda: krum_margin(J, cfg["f"], cfg["k"])) < 1e-6:
+            return "drop:krum-tie"
+        if ties and name == "MGDA" and self._get("mgda", lambda: mgda_trajectory_margin(J)) < 1e-9:
+            return "mgda-tie"
+        if name == "GradDrop" and not (exact and self.integer):
+            if self._get(("gd", tuple(cfg["U"])), lambda: graddrop_tie_state(J, cfg["U"])) != "clear":
+                return "drop:graddrop-tie"
+        return None
+
+
+MGDA_LOOSE = 2.0 * math.sqrt(max(8 * MGDA_EPS, 16.0 / (MGDA_ITERS + 2)))
